@@ -85,7 +85,9 @@ def generate(rng, tier):
         vb = R.viewbox(rng)
         f = [C.bits_f32(int(x, 16)) for x in vb]
         dx, dy = rng.range(-40, 40) / 2.0, rng.range(-40, 40) / 2.0
-        vb2 = rng.choice([vb, [C.fh(f[0] + dx), C.fh(f[1] + dy), C.fh(f[2] + dx), C.fh(f[3] + dy)], R.viewbox(rng)])
+        vb2 = rng.choice([vb, [C.fh(f[0] + dx), C.fh(f[1] + dy), C.fh(f[2] + dx), C.fh(f[3] + dy)], R.viewbox(rng),
+                          # a viewBox of zero width / height (the decoder accepts it): the scale of that axis is infinite
+                          [vb[0], vb[1], vb[0], vb[3]], [vb[0], vb[1], vb[2], vb[1]]])
         a = ["R"] + vb + [pal]
         for i in (0, 1, 63):
             a += ["CS", str(i), "CR", "0", "0", "#" + G.rpremul(rng)]
